@@ -75,6 +75,9 @@ func (c *checker) fsm(e *sim.Ev) {
 			}
 			st.last = pick.index
 			st.restIdx = pick.index
+			if st.restores == 0 {
+				st.firstRestIdx = pick.index
+			}
 		}
 		st.restores++
 		st.afterRest = true
